@@ -20,6 +20,7 @@ import runpy
 import types
 import struct
 import socket
+import select
 import signal
 import threading
 import collections.abc as cabc
@@ -496,6 +497,12 @@ class RemoteWorker(Worker, metaclass=RemoteWorkerMeta):
 
             incoming = self._ctrl_sock
             logger.debug('Waiting for a connect to the control socket from the parent')
+            # the parent sends nothing on the data socket until the handshake is over, so if that socket
+            # becomes readable before the control connection arrives the parent is gone - do not wait for it forever
+            ready, _, _ = select.select([incoming, self._socket], [], [])
+            if incoming not in ready:
+                incoming.close()
+                raise ConnectionClosedError()
             self._ctrl_sock, ctrl_peer = incoming.accept()
             set_keepalive(self._ctrl_sock, True)
             logger.details('Control sockets connected: {} <==> {}', self._ctrl_sock.getsockname(), ctrl_peer)
